@@ -305,6 +305,7 @@ func checkC15(c *Ctx) {
 	}
 	checkExecuteOrdering(c, cmds, pk)
 	checkEntriesVerbatim(c, "C15.R3.entries-verbatim", cmds, pk)
+	checkInputsBeforeOutput(c, "C15.R3.inputs-before-output", cmds)
 	// an entry copied from one run's report cancels the same difference of the next run only if
 	// the text of the difference is a function of the two specs: no map iteration order in it
 	c.Rule("C15.R3.stable-entries", "order taint over the diff package: the location and info of a difference never depend on map iteration order (ranges are order-insensitive, sorted before they escape, or reviewed)", 30)
@@ -1114,4 +1115,44 @@ func checkEntriesVerbatim(c *Ctx, rule string, cmds, diffpk *packages.Package) {
 		c.Check(len(bad) == 0, rule, "commands."+load.FuncName(fd)+" › no store to a field of a difference", c.posOf(cmds, pos), "no such store",
 			fmt.Sprintf("%s stores to %v: one side of the comparison between reported differences and ignore entries is rewritten after it was computed / decoded, so an entry copied from the report no longer matches the difference it was copied from", load.FuncName(fd), bad))
 	}
+}
+
+// checkInputsBeforeOutput: the report destination may name the ignore file (feeding a report
+// back in place): it is created / truncated only after the specs and the ignore file were read.
+func checkInputsBeforeOutput(c *Ctx, rule string, cmds *packages.Package) {
+	c.Rule(rule, "DiffCommand.Execute opens (truncates) the destination after getDiffs and readIgnores have returned", 1)
+	fd := load.FuncDecl(cmds, "DiffCommand.Execute")
+	if fd == nil {
+		c.Anchor(rule, "commands.DiffCommand.Execute", "not found")
+		return
+	}
+	info := cmds.TypesInfo
+	var open, diffs, ignores token.Pos
+	ast.Inspect(fd.Body, func(n ast.Node) bool {
+		call, ok := n.(*ast.CallExpr)
+		if !ok {
+			return true
+		}
+		fn := goan.Callee(info, call)
+		if fn == nil {
+			return true
+		}
+		switch {
+		case goan.CalleeName(fn) == "os.OpenFile" || goan.CalleeName(fn) == "os.Create":
+			if !open.IsValid() {
+				open = call.Pos()
+			}
+		case fn.Name() == "getDiffs":
+			diffs = call.Pos()
+		case fn.Name() == "readIgnores":
+			ignores = call.Pos()
+		}
+		return true
+	})
+	if !open.IsValid() || !diffs.IsValid() || !ignores.IsValid() {
+		c.Anchor(rule, "commands.DiffCommand.Execute › open / getDiffs / readIgnores", "one of the three calls was not found")
+		return
+	}
+	c.Check(open > diffs && open > ignores, rule, "commands.DiffCommand.Execute › destination opened after the inputs are read", c.posOf(cmds, open), "getDiffs, readIgnores, then the destination",
+		"the destination is created and truncated before the ignore file is read: with the report used as ignore file and written in place (-i X -d X) the entries are lost before they are read, and the run fails instead of giving an empty report")
 }
